@@ -19,6 +19,8 @@ def sh(*a, **k):
     return subprocess.run(a, capture_output=True, text=True, **k)
 
 
+# seeds whose property has no check for the damaged construct but another property's rule covers it
+ALSO = {"C12-2": "C10"}
 claimed = {c["property_id"] for c in json.load(open(f"{VERIF}/MANIFEST.json"))["checks"]}
 want = set(sys.argv[1:])
 sh("git", "-C", "/repo", "worktree", "remove", "--force", WT)
@@ -32,6 +34,7 @@ try:
         if want and key not in want:
             continue
         pid = key.split("-")[0]
+        pid = ALSO.get(key, pid)
         meta = json.load(open(d + "/meta.json"))
         res = {"checker_commit": sh("git", "-C", VERIF, "rev-parse", "--short", "HEAD").stdout.strip()}
         if pid not in claimed:
